@@ -117,26 +117,39 @@ theorem clean_bin {xs ys : List PTok} (o : BinOp) (hx : Clean xs) (hy : Clean ys
   simp only [List.append_assoc, List.cons_append]
   rw [h1, adj_op]; exact hy rest
 
-/-- the documented printer never puts two prefix operators next to each other -/
-theorem clean_pr : ∀ t : PTree, Clean (pr docNp t)
+/-- a printer that parenthesises every compound operand of a unary operator never puts two prefix operators next to
+each other -/
+theorem clean_pr_of (np : Np BinOp UnOp) (hU : ∀ u s c, np (.u u) s c = true) : ∀ t : PTree, Clean (pr np t)
   | .leaf a => clean_atom a
-  | .bin o l r => clean_bin o (clean_wrap _ (clean_pr l)) (clean_wrap _ (clean_pr r))
+  | .bin o l r => clean_bin o (clean_wrap _ (clean_pr_of np hU l)) (clean_wrap _ (clean_pr_of np hU r))
   | .un u (.leaf a) => fun rest => by simp [pr, needs, wrap, adj_pre_atom]
   | .un u (.bin c l' r') => fun rest => by
-    have hn : needs docNp (.u u) false (Tree.bin c l' r' : PTree) = true := by simp [needs, docNp]
-    have := clean_paren (clean_pr (.bin c l' r')) rest
+    have hn : needs np (.u u) false (Tree.bin c l' r' : PTree) = true := by simp [needs, hU]
+    have := clean_paren (clean_pr_of np hU (.bin c l' r')) rest
     rw [pr, hn]
     simp only [wrap, if_true, List.cons_append, adj_pre_lp]
     simpa [adj_lp] using this
   | .un u (.un v y) => fun rest => by
-    have hn : needs docNp (.u u) false (Tree.un v y : PTree) = true := by simp [needs, docNp]
-    have := clean_paren (clean_pr (.un v y)) rest
+    have hn : needs np (.u u) false (Tree.un v y : PTree) = true := by simp [needs, hU]
+    have := clean_paren (clean_pr_of np hU (.un v y)) rest
     rw [pr, hn]
     simp only [wrap, if_true, List.cons_append, adj_pre_lp]
     simpa [adj_lp] using this
 
-theorem adjacent_pr (t : PTree) : adjacentPre (pr docNp t) = false := by
-  have := clean_pr t []
+theorem adjacent_pr_of (np : Np BinOp UnOp) (hU : ∀ u s c, np (.u u) s c = true) (t : PTree) :
+    adjacentPre (pr np t) = false := by
+  have := clean_pr_of np hU t []
   simpa [adjacentPre] using this
+
+theorem docNp_unary (u : UnOp) (s : Bool) (c : Node BinOp UnOp) : docNp (.u u) s c = true := by
+  cases c <;> rfl
+
+theorem adjacent_pr (t : PTree) : adjacentPre (pr docNp t) = false := adjacent_pr_of docNp docNp_unary t
+
+/-- round trip through the raw-token parser for ANY printer decision that is compatible with the extracted Pratt table
+and parenthesises the compound operands of unary operators -/
+theorem parseToks_pr (np : Np BinOp UnOp) (C : Compat prattTbl np) (hU : ∀ u s c, np (.u u) s c = true) (t : PTree) :
+    parseToks ((pr np t).map ofPTok) = some (toSExpr t) := by
+  simp [parseToks, classify_pr, adjacent_pr_of np hU, PrecU.roundtrip_all C t]
 
 end Lemmas.Pratt
